@@ -112,9 +112,9 @@ class Check:
         path = os.path.join(LEAN, audit_module.replace('.', '/') + '.lean')
         rc, out = sh(['lake', 'env', 'lean', path], cwd=LEAN, timeout=3000)
         theorems = {}
-        for m in re.finditer(r"'([^']+)' depends on axioms: \[([^\]]*)\]", out):
+        for m in re.finditer(r"^'(.+)' depends on axioms: \[([^\]]*)\]", out, re.M):
             theorems[m.group(1)] = [a.strip() for a in m.group(2).split(',') if a.strip()]
-        for m in re.finditer(r"'([^']+)' does not depend on any axioms", out):
+        for m in re.finditer(r"^'(.+)' does not depend on any axioms", out, re.M):
             theorems[m.group(1)] = []
         if rc != 0:
             problems.append('audit module failed to elaborate: ' + out[-800:])
